@@ -60,7 +60,7 @@ package ircserver
 
 // A reply context under construction: send() indexes the last message when
 // called again with the same irc.Message.
-//@ pred replyOK(r *Replyctx) = r != nil && allocated(r.lastmsg) && (r.lastmsg != nil ==> len(r.Messages) > 0) && (forall k int :: 0 <= k && k < len(r.Messages) ==> r.Messages[k] != nil && allocated(r.Messages[k]) && r.Messages[k].InterestingFor != nil && allocated(r.Messages[k].InterestingFor))
+//@ pred replyOK(r *Replyctx) = r != nil && allocated(r.lastmsg) && (r.lastmsg != nil ==> len(r.Messages) > 0) && (forall k int :: 0 <= k && k < len(r.Messages) ==> r.Messages[k] != nil && allocated(r.Messages[k]) && r.Messages[k].InterestingFor != nil && allocated(r.Messages[k].InterestingFor) && len(r.Messages[k].Data) <= 510)
 
 // ---------------------------------------------------------------------------
 // The send helpers (C12: who receives a message)
